@@ -118,6 +118,31 @@ def random_cases(n, seed, dbs=("d",)):
     return cases
 
 
+def with_neighbour(case):
+    """The same history next to a second database whose name has the first one's name as a prefix (`d2`), with another
+    conflict strategy and keys of the same names; every snapshot of `d` takes `d2` along.  Each database must come
+    back as itself."""
+    steps = []
+    done = False
+    for st in case["steps"]:
+        op = st.get("op", {})
+        if op.get("op") == "snapshot" and op.get("names") == ["d"]:
+            st = render.step(st.get("c", "a"), dict(op, names=["d", "d2"]))
+        steps.append(st)
+        if not done and op.get("op") == "create-db":
+            steps += [render.step("a", {"op": "create-db", "d": "d2", "tok": "tok2", "strategy": "newer"}),
+                      render.step("n2", {"op": "use-db", "d": "d2", "tok": "tok2"}),
+                      render.step("n2", {"op": "set", "k": "a", "v": "nb1"}),
+                      render.step("n2", {"op": "set", "k": "zz", "v": "nb2"}),
+                      render.step("n2", {"op": "set", "k": "bcd", "v": "nb3"}),
+                      render.step("n2", {"op": "set", "k": "q7", "v": "nb4"})]
+            done = True
+    out = dict(case)
+    out["steps"] = steps
+    out["id"] = "nb" + case["id"]
+    return out
+
+
 def fix_sessions(case):
     """after every restart inside a model-generated case the sessions must log in again"""
     out = []
@@ -138,6 +163,8 @@ def run(tier, seed):
     cases = [fix_sessions(c) for c in model_cases(tier, wd, res)]
     n_model = len(cases)
     cases += random_cases(300 if tier == "quick" else 10000, seed)
+    nrnd = random.Random(seed + 5)
+    cases += [with_neighbour(c) for c in nrnd.sample(cases[:n_model], min(n_model, 400 if tier == "quick" else 4000))]
     by_id = {c["id"]: c for c in cases}
     for c in cases:
         c["follow_ticks"] = True      # every completed snapshot is also compared with the byte-level model
